@@ -13,6 +13,7 @@ from .common import table, CallGraph
 from .facts import op_place
 
 CRATES = {"gluon_base", "gluon_parser", "gluon_check", "gluon_vm", "gluon", "gluon_format"}
+THOROUGH_CONFIGS = ["default", "nodefault"]  # thorough also analyses the default-feature and the no-default-features builds
 
 HASH_ADTS = ("std::collections::hash::map::HashMap", "std::collections::hash::set::HashSet",
              "hashbrown::map::HashMap", "hashbrown::set::HashSet", "hashbrown::table::HashTable")
